@@ -488,6 +488,7 @@ with el_write (fuel : nat) (cid : Z) (sent : Z) (w : world) {struct fuel} : res 
   | S f =>
     let c := wc w cid in
     let et := l_et (st w) in
+    if negb (c_opened c) then (RNil, w) else
     match c_out c with
     | [] => (RNil, w)
     | _ =>
@@ -641,8 +642,11 @@ with hcall (fuel : nat) (cid : Z) (call : string) (args : list arg) (w : world) 
     match args with
     | [ABytes d; cb] =>
         if c_udp c then
-          let '(k, w1) := if negb (c_remote c) && negb (c_opened c) then (KErr "closed", w)
-                          else sys "sendto" [AInt (c_fd c); ABytes d; bool_arg (c_remote c)] w in
+          (* AsyncWrite on a datagram connection sends at once, without looking at `opened`
+             (it may run on any goroutine): on a closed connected-UDP connection that is a send on
+             a released descriptor -- marked, it is a recorded finding *)
+          let w := if negb (c_remote c) && negb (c_opened c) then ghost "staleudp" cid [] w else w in
+          let '(k, w1) := sys "sendto" [AInt (c_fd c); ABytes d; bool_arg (c_remote c)] w in
           let w2 := if flag_of cb then emit (obs "acb" [ASym "write"; AInt (-1); ASym "nil"]) w1 else w1 in
           hr [ASym (match k with KErr _ => "err" | _ => "nil" end)] w2
         else
@@ -679,7 +683,9 @@ with hcall (fuel : nat) (cid : Z) (call : string) (args : list arg) (w : world) 
   else if sym_eqb call "on" then
     (* `h on <cid'> <call> args...` : act on another connection of this loop *)
     match args with
-    | AInt t :: ASym call' :: args' => hcall f t call' args' w
+    | AInt t :: ASym call' :: args' =>
+        (* script contract: a handler only holds connections that are open *)
+        if c_opened (wc w t) then hcall f t call' args' w else desync "on-closed-target" w
     | _ => desync "h-on-args" w
     end
   else desync "h-unknown" w
@@ -859,6 +865,9 @@ Definition el_read_udp (fuel : nat) (fd : Z) (is_listener : bool) (w : world) : 
   | (KOk n extra, w1) =>
       let data := match extra with ABytes b :: _ => b | _ => [] end in
       let src := match extra with _ :: a :: _ => [a] | _ => [] end in
+      (* kernel contract: the result carries exactly the payload (n bytes, at most the buffer) and the source *)
+      if negb (match extra with [ABytes _; _] => true | _ => false end) || negb (zlen data =? n) || (l_bufcap (st w1) <? n)
+      then (RErr, desync "kernel-contract-recvfrom" w1) else
       if is_listener then
         let cid := l_next (st w1) in
         let c := mkConn fd false false [] [] data true true in
@@ -1069,8 +1078,13 @@ Definition init_world (i : list line) : option world :=
   | _ => None
   end.
 
+(* recursion bound: fuel is burnt per consumed line, per argument of an `h on .. on ..`
+   line, per queued task and per registered connection; this weight dominates all of them *)
+Definition init_fuel (i : list line) : nat :=
+  S (fold_right (fun l a => (2 + List.length (snd l) + a)%nat) O i).
+
 Definition run_loop : runner := fun i =>
   match init_world i with
   | None => [obs "desync" [ASym "no-cfg"]]
-  | Some w => out_of (rev (log (polling (S (List.length i)) w)))
+  | Some w => out_of (rev (log (polling (init_fuel i) w)))
   end.
